@@ -179,6 +179,13 @@ def forms_workload(ck, pid, tier, salts):
                 # "any indentation": a very long run of blanks in front of the line does not hide it from the scan
                 pad = " " * (2100 if ai % 16 == 6 else 4200)
                 conc = dict(conc, line=pad + conc["line"], lead=pad + conc["lead"])
+            if pid in ("C07", "C09") and ai % 32 == 9 and conc["secrets"]:
+                # a one-line dump: the secret lies across the 64 KiB boundary of the line
+                k0 = conc["secrets"][0]["index"]
+                pos = len(conc["lead"]) + len(" ".join(conc["words"][:k0])) + (1 if k0 else 0)
+                pad = " " * max(0, 65536 - 3 - pos)
+                conc = dict(conc, line=pad + conc["line"], lead=pad + conc["lead"])
+                via = "io"
             if frags is None:
                 frags = keyword_fragments(conc["words"], {x["index"] for x in conc["secrets"]}, {w.lower() for w in reserved})
             outs, logs = run_lines([conc["line"]], salt, via, words=frags)
@@ -576,6 +583,44 @@ def files_workload(ck, pid):
     return traces, meta
 
 
+def bom_files(ck, pid):
+    """File entry points: a byte order mark (or any other text) in front of the keyword of the FIRST line is text before
+    the secret like any other and is kept; so are CRLF terminators."""
+    base = tlc.subdir("bom_%s" % pid)
+    traces, meta = [], []
+    r = rng(pid, "bom")
+    for vi, (bom, eol) in enumerate((("\ufeff", "\n"), ("\ufeff", "\r\n"), ("", "\r\n"))):
+        vals = [G.gen_secret(r, c, 4, avoid=set(default_reserved_words)) for c in ("text", "md5", "type7")]
+        lines = ["enable secret %s" % vals[0], "username bob password 5 %s" % vals[1], " key 7 %s" % vals[2]]
+        ind, outd = os.path.join(base, "in%d" % vi), os.path.join(base, "out%d" % vi)
+        os.makedirs(ind)
+        with open(os.path.join(ind, "first.cfg"), "wb") as fh:
+            fh.write((bom + eol.join(lines) + eol).encode("utf-8"))
+        ev = [{"ev": "run", "clauses": CLAUSES[pid]}]
+        try:
+            with_logs(lambda: AF.anonymize_files(ind, outd, True, False, salt="bom"))
+            got = open(os.path.join(outd, "first.cfg"), "rb").read().decode("utf-8")
+            outs = got.split(eol)[:-1] if got.endswith(eol) else got.split(eol)
+            if len(outs) != len(lines):
+                ev.append({"ev": "exc", "what": "%d lines in, %d lines out" % (len(lines), len(outs))})
+            else:
+                for ln, o, v in zip([bom + lines[0]] + lines[1:], outs, vals):
+                    w = ln.split(" ")
+                    w = [x for x in w if x]
+                    conc = {"words": w, "lead": ln[: len(ln) - len(ln.lstrip(" "))],
+                            "secrets": [{"value": v, "cls": G.classify(v)[0], "slen": G.classify(v)[1], "index": w.index(v), "pre": "", "post": "", "head": "", "tail": "", "n": 1}]}
+                    for e in G.project(conc, o, "replace"):
+                        e["ev"] = "sec"
+                        e["key"] = G.secret_key(v)
+                        ev.append(e)
+        except Exception as e:
+            ev.append({"ev": "exc", "what": "anonymize_files: %r" % (e,)})
+        traces.append(ev)
+        meta.append({"key": "file-entry bom=%s eol=%s" % (bool(bom), "crlf" if eol == "\r\n" else "lf"), "lines": lines})
+        ck.count(("bom", vi))
+    return traces, meta
+
+
 def run(pid, tier):
     ck = Check(pid, tier)
     ck.assumptions = ["the form table in SecretForms.tla (derived from the documented syntaxes) is the set of recognised line forms",
@@ -605,6 +650,9 @@ def run(pid, tier):
     if pid == "C08":
         traces, meta = files_workload(ck, pid)
         judge(ck, pid, traces, meta, "files")
+    if pid == "C09":
+        traces, meta = bom_files(ck, pid)
+        judge(ck, pid, traces, meta, "file-entry")
     ck.rule = ("cases = abstract lines enumerated by TLC from the form table (distinct by form, alternatives, class, wrap, lead), "
                "occurrence histories enumerated by TLC from PwdLookup, long random runs; each concretized with fresh secret values")
     return ck.finish()
